@@ -150,6 +150,11 @@ func (g *gen) untwin(i int, cands []int) []int {
 		if c.name == own.name {
 			continue
 		}
+		if p, ok := g.prefer[i][c.name]; ok {
+			// Opts.NamesakeImports: the unit is meant to refer to this one of the namesakes
+			best[c.name] = p
+			continue
+		}
 		if b, ok := best[c.name]; !ok || (c.pkg == own.pkg && g.sigs[b].pkg != own.pkg) {
 			best[c.name] = j
 		}
@@ -167,7 +172,9 @@ func (g *gen) untwin(i int, cands []int) []int {
 					shadowed = true
 				}
 			}
-			if shadowed {
+			if p, ok := g.prefer[i][c.name]; shadowed && !(ok && p == j) {
+				// (Opts.NamesakeImports: the preferred namesake is imported by a single-type import, which
+				// hides the class of the own package)
 				continue
 			}
 		}
